@@ -109,6 +109,16 @@ def extract(repo):
     if b.count("!VARget_inverse( a ) && !VARis_derived( a )") != 1:
         raise ValueError("LIBstructor_print: own-attribute filter changed")
 
+    # ---- where the descriptor of an ENUMERATION / SELECT type is created
+    ct = rd("src/exp2cxx/classes_type.c")
+    tp = _body(ct, r"void\s+TYPEPrint\s*\([^)]*\)\s*\{")
+    tpcc = _body(ct, r"void\s+TYPEPrint_cc\s*\([^)]*\)\s*\{")
+    in_create = "TYPEprint_new( type, files->create, schema, false )" in tp
+    in_init = "TYPEprint_new( type, impl, schema, true )" in tpcc
+    if in_create == in_init:
+        raise ValueError("TYPEPrint/TYPEPrint_cc: cannot tell where TYPEprint_new is called for enumerations and selects")
+    creation = "beforeInits" if in_create else "ownInit"
+
     def codes(s):
         return "[" + ", ".join(str(ord(x)) for x in s) + "]"
     text = f"""/- generated by tools/extract.d/dictgen.py from src/clstepcore/STEPattributeList.cc, STEPattribute.cc,
@@ -123,6 +133,14 @@ def pushKey : PushKey := .{key}
 
 /-- fields compared by the full `operator==` when push uses it -/
 def pushEqFields : List String := [{", ".join('"' + f + '"' for f in fields)}]
+
+inductive DescCreation | beforeInits | ownInit
+  deriving DecidableEq, Repr
+
+/-- where exp2cxx prints `new EnumTypeDescriptor` / `new SelectTypeDescriptor`: with all other descriptors in
+    `InitSchemasAndEnts` (SdaiAll.cc), or inside the type's own `init_Sdai<T>` function (which runs after the init
+    code of the other defined types, whose `ReferentType( t_<T> )` then reads a null pointer) -/
+def descCreation : DescCreation := .{creation}
 
 /-- `LITERAL_INFINITY->u.integer` -/
 def literalInfinity : Int := {inf}
